@@ -503,3 +503,40 @@ func ReplayScenario(scs []*Scenario, rp Replay) []*Finding {
 	}
 	return []*Finding{{Sig: "BROKEN:unknown-unit", Msg: rp.Unit}}
 }
+
+// RunCase executes one case of a Q/E unit under the default schedule (or the given
+// choices), accounts it, and records its findings with traced signatures.
+func (c *Ctx) RunCase(unit, eng string, sc *Scenario, input any, choices []int) *vrt.Exec {
+	x := RunOnce(sc, choices, false)
+	fs := StandardFindings(sc, x)
+	obs, nt := "", false
+	if x.Diverged == "" {
+		var more []*Finding
+		obs, nt, more = sc.Check(x)
+		fs = append(fs, more...)
+	}
+	in, _ := json.Marshal(input)
+	c.Record(unit, eng, string(in)+"|"+obs, nt, int64(len(x.Points)+1), int64(x.Steps))
+	if len(fs) > 0 {
+		xt := RunOnce(sc, x.Choices(), true)
+		fs = StandardFindings(sc, xt)
+		if xt.Diverged == "" {
+			_, _, more := sc.Check(xt)
+			fs = append(fs, more...)
+		}
+		for _, f := range fs {
+			f.Unit = unit
+			f.Replay = Replay{Unit: unit, Input: in, Choices: x.Choices()}
+			c.Res.AddFinding(f)
+		}
+	} else if len(c.Res.Samples) < 3 {
+		c.Res.Sample(map[string]any{"unit": unit, "input": input, "observation": trunc(obs, 300)})
+	}
+	return x
+}
+
+// ReplayCase re-runs one recorded case with tracing.
+func ReplayCase(unit string, sc *Scenario, rp Replay) []*Finding {
+	sc.Name = unit
+	return ReplayScenario([]*Scenario{sc}, rp)
+}
